@@ -37,6 +37,9 @@ def corpus():
     for base in (OFFSET_MS, 1790000000000, 1627483500000, OFFSET_MS + 86400000 * 366):
         out += ["TICK %d %d" % (base + 999, base + 1000), "TICK %d %d %d" % (base + 999, base + 999, base + 1000),
                 "TICK %d %d" % (base + 59999, base + 60000), "TICK %d %d %d" % (base + 500, base + 501, base + 1500), "TICK %d" % (base + 999)]
+    # the real clock, no hook: 20000 calls each bracketed by two clock readings of the harness (catches rounding instead of flooring,
+    # a wrong unit, a cached reading) - four lines so that four processes sample different phases
+    out += ["REALNOW 20000", "REALNOW 20001", "REALNOW 20002", "REALNOW 20003"]
     return out
 
 
@@ -107,6 +110,13 @@ def oracle(line, out, mode):
         if not (first - OFFSET_MS <= v <= last - OFFSET_MS):
             return ("dtn_time_now() = %d is not a current time: the clock read %d .. %d (DTN %d .. %d) during the call"
                     % (v, first, last, first - OFFSET_MS, last - OFFSET_MS))
+    elif tok[0] == "REALNOW":
+        if out not in ("OK", "SKIP"):
+            o = out.split(" ")
+            if len(o) == 5 and o[1] == "BAD":
+                return ("dtn_time_now() on the real clock = %s, but the Unix clock read %s ms before and %s ms after the call (DTN %d .. %d)"
+                        % (o[3], o[2], o[4], int(o[2]) - OFFSET_MS, int(o[4]) - OFFSET_MS))
+            return "dtn_time_now() on the real clock: %s" % out[:40]
     elif tok[0] == "NOW":
         c = int(tok[1])
         if c >= OFFSET_MS and out != "OK %d" % (c - OFFSET_MS):
